@@ -240,10 +240,32 @@ def known_off_features(language):
             and language in k.get("languages", [language])}
 
 
+def witness_pass(ctx, lang):
+    """hand-checked witnesses of repaired defects (known_findings.json, status fixed): the check fails again if one returns"""
+    from vf.runner import load_known
+
+    for k in load_known():
+        w = k.get("witness", {})
+        if w.get("language") != lang or "expect" not in w:
+            continue
+        ctx.eval()
+        ctx.count("monitor.fixed_defect_witnesses")
+        try:
+            _, ms = pipeline.analyze(lang, w["source"])
+            got = pipeline.measurements_as_lists(ms)
+        except Exception as e:
+            got = f"{type(e).__name__}: {e}"
+        if got != w["expect"]:
+            ctx.violation("fixed_defect_returned", {"witness_of": k["id"], "language": lang, "source": w["source"]},
+                          {"finding": k["id"], "expected": w["expect"], "observed": got})
+
+
 def run(shard, ctx):
     lang = shard["language"]
     rng = rng_for(shard["seed"], "c01", lang, shard["part"])
     off = known_off_features(lang)
+    if shard["part"] == 0:
+        witness_pass(ctx, lang)
     with Oracle(ctx) as oracle:
         for i in range(shard["count"]):
             seed = f"{shard['seed']}:{shard['part']}:{i}"
@@ -271,6 +293,9 @@ def run(shard, ctx):
 
 
 def replay(case, ctx):
+    if "witness_of" in case:
+        witness_pass(ctx, case["language"])
+        return
     with Oracle(ctx) as oracle:
         s = case["seed"]
         prog = canon.generate(case["language"], s["s"], case["features"], **s.get("kw", {}))
